@@ -37,7 +37,7 @@ def run(pid, replay=None):
                 raise vlib.Infra("Pool %s printed no schedule: %s" % (cfgk, r.raw[-600:]))
             pick = sink[:4] + [sink[int(j * len(sink) / 5.0)] for j in range(1, 5)]
             directed += [{"hist": d["hist"], "max": d["max"], "violates": d["violates"], "fixoff": k} for d in pick]
-        n = 3000 if thorough else 200
+        n = 1500 if thorough else 200
         behs = [{"hist": d["hist"], "max": d.get("max", 1)} for d in directed]
         for mx in (1, 2):
             s = vlib.run_tlc(pid, "sim%d" % mx, SPEC, "Pool", "Sim%d.cfg" % mx, workers=1, timeout=900,
@@ -51,7 +51,7 @@ def run(pid, replay=None):
     bf = os.path.join(work, "behs.ndjson")
     vlib.write_ndjson(bf, behs)
     kinds = []
-    reps = 1 if replay else (4 if thorough else 2)
+    reps = 1 if replay else (3 if thorough else 2)
     for rep in range(reps):
         tf = os.path.join(work, "sched.trace.%d.ndjson" % rep)
         vlib.run_driver(binp, ["-mode", "sched", "-in", bf, "-out", tf], timeout=3000)
